@@ -252,6 +252,7 @@ class Engine:
             g = z3.Implies(z3.And(*self.guards), goal)
         o = Oblig(name, kind, list(self.global_axioms.values()) + list(st.pc), g, line, note)
         o.inputs = self.inputs
+        o.ghosts = [g_ for g_, t_ in self.c.ghost.items() if isinstance(t_, MapT)]
         self.obligs.append(o)
         return o
 
